@@ -28,6 +28,37 @@ type SpecEnv struct {
 	qn    *int
 	witness map[string]Value // existential variable -> witness value (proof-side instantiation)
 	loopSt *State // state at entry of the innermost loop being specified (for atloop(e))
+	// closure invariants are checked against an unknown number of earlier calls of the closure:
+	// old(e) inside them denotes the value e had when the higher-order callee was entered, which
+	// the closure body sees only as an unknown constant (one per syntactic old(...) occurrence)
+	oldAbs map[*ECall]Value
+	// names whose value is read from memory (captured variables, address-taken locals): their
+	// value in the old state, used for occurrences inside old(...)
+	oldVars map[string]Value
+}
+
+// shadow returns oldVars without the given (newly bound) names.
+func (se *SpecEnv) shadow(names ...string) map[string]Value {
+	if se.oldVars == nil {
+		return nil
+	}
+	hit := false
+	for _, n := range names {
+		if _, ok := se.oldVars[n]; ok {
+			hit = true
+		}
+	}
+	if !hit {
+		return se.oldVars
+	}
+	m := map[string]Value{}
+	for k, v := range se.oldVars {
+		m[k] = v
+	}
+	for _, n := range names {
+		delete(m, n)
+	}
+	return m
 }
 
 func (se *SpecEnv) with(vars map[string]Value) *SpecEnv {
@@ -235,7 +266,9 @@ func (se *SpecEnv) eval(x Expr) Value {
 			nv[k] = vv
 		}
 		nv[x.Name] = v
-		return se.with(nv).eval(x.Body)
+		inner := se.with(nv)
+		inner.oldVars = se.shadow(x.Name)
+		return inner.eval(x.Body)
 	case *ETypeLit:
 		sfail("type literal outside typeof comparison")
 	}
@@ -433,7 +466,9 @@ func (se *SpecEnv) evalQuant(x *EQuant) Value {
 			guards = append(guards, rangeFact(name, t))
 		}
 	}
-	body := se.with(nv).evalBool(x.Body)
+	qi := se.with(nv)
+	qi.oldVars = se.shadow(qnames(x)...)
+	body := qi.evalBool(x.Body)
 	g := and(guards...)
 	q := "forall"
 	if x.Forall {
@@ -443,6 +478,14 @@ func (se *SpecEnv) evalQuant(x *EQuant) Value {
 		body = and(g, body)
 	}
 	return Value{T: "(" + q + " (" + strings.Join(binders, " ") + ") " + body + ")", Sort: "Bool", GoT: types.Typ[types.Bool]}
+}
+
+func qnames(x *EQuant) []string {
+	var out []string
+	for _, qv := range x.Vars {
+		out = append(out, qv.Name)
+	}
+	return out
 }
 
 func (se *SpecEnv) evalCall(x *ECall) Value {
@@ -470,10 +513,33 @@ func (se *SpecEnv) evalCall(x *ECall) Value {
 	}
 	switch id.Name {
 	case "old":
+		if se.old == nil && se.oldAbs != nil {
+			if c, ok := se.oldAbs[x]; ok {
+				return c
+			}
+			cur := se.eval(x.Args[0])
+			c := cur
+			c.Addr = nil
+			c.T = se.e.ctx.freshConst("inv.old", cur.Sort)
+			se.oldAbs[x] = c
+			return c
+		}
 		if se.old == nil {
 			sfail("old() not available here")
 		}
-		return se.inState(se.old).eval(x.Args[0])
+		inOld := se.inState(se.old)
+		if len(se.oldVars) > 0 {
+			nv := map[string]Value{}
+			for k, val := range se.vars {
+				nv[k] = val
+			}
+			for k, val := range se.oldVars {
+				nv[k] = val
+			}
+			inOld.vars = nv
+			inOld.oldVars = nil
+		}
+		return inOld.eval(x.Args[0])
 	case "atloop":
 		if se.loopSt == nil {
 			sfail("atloop() is only available in loop invariants")
@@ -614,6 +680,7 @@ func (se *SpecEnv) callSpec(sf *SpecFunc, args []Expr) Value {
 		nv[p.Name] = v
 	}
 	inner.vars = nv
+	inner.oldVars = nil
 	inner.depth = se.depth + 1
 	if sf.Abstract {
 		var argT, argS []string
